@@ -86,6 +86,22 @@ def backend_table():
     return probs
 
 
+def peak_case(case):
+    """PeakScan.tla's candidate peaks against peak_finder with a threshold that keeps every candidate."""
+    import warnings
+    from speckit import dsp
+    m = np.array(case["m"], dtype=float)
+    f = np.arange(1, len(m) + 1, dtype=float)
+    try:
+        with warnings.catch_warnings():
+            warnings.simplefilter("ignore")
+            pf, pm = dsp.peak_finder(f, m, cnr=-3000, edge=case["edge"], rtol=1e-9)
+    except (RuntimeError, TypeError, ValueError):
+        return None                      # the noise-model fit needs more non-peak points than this record has
+    got = [int(round(v)) - 1 for v in pf]
+    return [] if got == list(case["peaks"]) else [("peaks", got, list(case["peaks"]))]
+
+
 def run(tier):
     V = common.Verdict(PID, tier, "model_checking")
     res = tlc.run_model("Config", f"{PID}_config", constants=dict(EmitCases=True), invariants=["AlphaOnlyForKaiser", "Emit"])
@@ -99,6 +115,21 @@ def run(tier):
             V.violation(f"{PID}|config|{what}|{c['cfg']['win']}|{c['cfg']['olap']}|{c['cfg']['sched']}", {"kind": "config", "case": c, "message": f"{what}: {c['cfg']}: got {got}, table says {exp}"})
     for (what, a, b) in single_bin_table() + backend_table():
         V.violation(f"{PID}|table|{what}", {"kind": "table", "message": f"{what}: {a}: {b}"})
+    rp = tlc.run_model("PeakScan", f"{PID}_peaks", constants=dict(MaxLenP=6 if tier == "quick" else 7, Vals=tlc.Raw("{1,2,3}"), EmitCases=True),
+                       invariants=["ReportedAreMaxima", "SharpPeaksFound", "Increasing", "NoEdgeWithoutFlag", "Emit"])
+    if rp.violated:
+        raise tlc.TLCError(f"PeakScan.tla violates {rp.violated}")
+    V.model(rp, "PeakScan.tla: candidate-peak scan of peak_finder (sharp peaks, plateaus, edges)")
+    pcs = rp.json_prints()
+    skipped = 0
+    for c, probs in zip(pcs, common.pmap(peak_case, pcs, chunksize=64)):
+        if probs is None:
+            skipped += 1
+            continue
+        V.case(c, bool(c["peaks"]))
+        for (what, got, exp) in probs:
+            V.violation(f"{PID}|peak_finder|{what}|edge={c['edge']}", {"kind": "peak", "case": c, "message": f"peak_finder({c['m']}, edge={c['edge']}): peaks at {got}, model {exp}"})
+    V.set("peak_cases_skipped_fit_impossible", skipped)
     V.sample({"case": cases[0]})
     rc = V.finish(rule="every row of Config.tla's decision table + fixed validation tables")
     # not a listed property: keep its evidence out of /verif/evidence
